@@ -140,9 +140,6 @@ var c15BoundaryBodies = []int{127, 128, 129, 16383, 16384, 16385, 4095, 4096, 40
 
 func c15BuildLayout(sh c15Shape) (*c15Car, error) {
 	rng := rand.New(rand.NewSource(sh.Seed*7919 + 13))
-	type proto struct {
-		kind int
-	}
 	var plan []int // kinds in file order
 	ck := sh.ChildKinds
 	if len(ck) == 0 {
